@@ -364,13 +364,19 @@ fn zygote_loop(cmd_r: i32, res_w: i32) -> ! {
         if !read_exact_fd(cmd_r, &mut payload) {
             unsafe { libc::_exit(0) }
         }
+        // the item's private, initially empty file tree (see disk.rs)
+        crate::disk::prepare();
         let (bytes, exit) = run_item(
-            || match entry {
-                Some(f) => f(&payload),
-                None => Vec::new(),
+            || {
+                crate::disk::enter();
+                match entry {
+                    Some(f) => f(&payload),
+                    None => Vec::new(),
+                }
             },
             Duration::from_millis(timeout_ms as u64),
         );
+        crate::disk::cleanup();
         drop(payload);
         let mut frame = Vec::with_capacity(bytes.len() + 13);
         frame.extend_from_slice(&idx.to_le_bytes());
